@@ -20,7 +20,7 @@ RULE = ("Cases: a valid document of a text format (JSON, JSON5, YAML, XML, HTML,
         "variants) serialised deterministically, one corruption {truncate at byte i | delete byte i | duplicate byte i "
         "(delimiter bytes {}[]:,\"<>/=&; newline, space) | replace byte i by an unbalancing bracket/tag character | flip "
         "byte i to a drawn value}, and the position of the corrupt file (first or second) next to a valid file of the "
-        "same type. Quick: every byte position of 3 fixed documents per format for truncate/delete/duplicate x both "
+        "same type (optionally with an explicit, more permissive type given for the valid file only); JSON/XML documents also in a multi-line layout with trailing newline; files of nothing but white space. Quick: every byte position of 3 fixed documents per format for truncate/delete/duplicate x both "
         "positions; thorough adds 30 generated documents per format and byte flips. A corruption is kept only if the "
         "independent parser of the format rejects it (json.loads; json5.loads; both yaml.SafeLoader and "
         "yaml.CSafeLoader; expat; plistlib.loads); the number discarded as still valid is reported. Oracle: main() "
@@ -41,6 +41,9 @@ SHRINK = {'docs': ['doc'], 'enums': {'position': 0, 'opts': '--no-status'}}
 
 FORMATS = ['json', 'json5', 'yaml', 'xml', 'html', 'plist']
 # status / logging options the message must survive (each suppresses progress bars, which would also name the files)
+# an explicit type for the *valid* file, chosen among parsers that also read it (JSON is valid JSON5 and valid YAML): the
+# corrupt file keeps its honest name and must still be judged by its own type
+EXPLICIT = {'json': [None, 'json5', 'yaml', None], 'json5': [None, 'yaml']}
 OPTS = ['--no-status', '--no-status', '--quiet', '--no-status --log-level CRITICAL', '--no-status --debug']
 DELIMS = set(b'{}[]:,"<>/=&;\n -')
 UNBALANCE = b'{[<"\'>]}'
@@ -64,8 +67,10 @@ def EXHAUSTIVE(tier):
     return False
 
 
-def serialise(fmt, doc, ascii_only=True):
+def serialise(fmt, doc, ascii_only=True, layout='compact'):
     if fmt in ('json', 'json5'):
+        if layout == 'pretty':      # several lines and a trailing newline, as editors and `json.dump(indent=2)` users produce
+            return (json.dumps(doc, ensure_ascii=ascii_only, indent=2) + '\n').encode('utf-8')
         return json.dumps(doc, ensure_ascii=ascii_only).encode('utf-8')
     if fmt == 'yaml':
         import yaml
@@ -73,7 +78,8 @@ def serialise(fmt, doc, ascii_only=True):
     if fmt == 'plist':
         return plistlib.dumps(doc)
     if fmt in ('xml', 'html'):
-        return ET.tostring(gen.to_et(doc), encoding='us-ascii' if ascii_only else 'utf-8')
+        data = ET.tostring(gen.to_et(doc), encoding='us-ascii' if ascii_only else 'utf-8')
+        return data + b'\n' if layout == 'pretty' else data
     raise ValueError(fmt)
 
 
@@ -108,9 +114,11 @@ def rejects(fmt, data):
 
 
 def corrupt(data, c):
-    k, i = c['kind'], c['at']
+    k, i = c['kind'], c.get('at', 0)
     if not (0 <= i <= len(data)):
         return None
+    if k == 'blank':
+        return c['bytes'].encode()
     if k == 'truncate':
         return data[:i]
     if i >= len(data):
@@ -131,8 +139,8 @@ def jobs(tier):
     return js
 
 
-def enumerate_corruptions(fmt, doc, ascii_only, flips=False):
-    data = serialise(fmt, doc, ascii_only)
+def enumerate_corruptions(fmt, doc, ascii_only, flips=False, layout='compact'):
+    data = serialise(fmt, doc, ascii_only, layout)
     for i in range(len(data) + 1):
         yield {'kind': 'truncate', 'at': i}
     for i in range(len(data)):
@@ -159,12 +167,22 @@ def run_job(job, seed, sink):
         for fmt in FORMATS:
             for di, doc in enumerate(DOCS[fmt]):
                 ascii_only = di != 2
-                for c in enumerate_corruptions(fmt, doc, ascii_only):
-                    for pos in (0, 1):
-                        if i % 16 == job['shard']:
-                            sink.fast({'fmt': fmt, 'doc': doc, 'ascii': ascii_only, 'corruption': c, 'position': pos,
-                                       'opts': OPTS[(i // 16) % len(OPTS)]})
-                        i += 1
+                layouts = ['compact', 'pretty'] if fmt in ('json', 'json5', 'xml', 'html') and di == 0 else ['compact']
+                for layout in layouts:
+                    for c in enumerate_corruptions(fmt, doc, ascii_only, layout=layout):
+                        for pos in (0, 1):
+                            if i % 16 == job['shard']:
+                                sink.fast({'fmt': fmt, 'doc': doc, 'ascii': ascii_only, 'corruption': c, 'position': pos,
+                                           'opts': OPTS[(i // 16) % len(OPTS)], 'layout': layout,
+                                           'explicit': EXPLICIT.get(fmt, [None])[(i // 32) % len(EXPLICIT.get(fmt, [None]))]})
+                            i += 1
+            # degenerate files: nothing but white space
+            for blank in (b'\n', b'\n\n\n', b' ', b'\t\n'):
+                for pos in (0, 1):
+                    if i % 16 == job['shard']:
+                        sink.fast({'fmt': fmt, 'doc': DOCS[fmt][0], 'ascii': True, 'corruption': {'kind': 'blank', 'bytes': blank.decode()},
+                                   'position': pos, 'opts': '--no-status', 'layout': 'compact', 'explicit': None})
+                    i += 1
         return
     docs = []
     strat = st.sampled_from(FORMATS).flatmap(lambda f: gen_doc_strategy(f).map(lambda d: (f, d)))
@@ -191,7 +209,7 @@ def check(case):
     out = Outcome()
     fmt = case['fmt']
     try:
-        good = serialise(fmt, case['doc'], case.get('ascii', True))
+        good = serialise(fmt, case['doc'], case.get('ascii', True), case.get('layout', 'compact'))
     except Exception:
         out.skipped = 'not-serialisable'
         return out
@@ -209,10 +227,13 @@ def check(case):
     pg, pbad = cli.write_file(good, ext, name='good'), cli.write_file(bad, ext, name='corrupt')
     try:
         pair = [pbad, pg] if case.get('position', 0) == 0 else [pg, pbad]
-        r = cli.run_main(pair + case.get('opts', '--no-status').split() + ['--no-color'])
+        extra = []
+        if case.get('explicit'):
+            extra = [('--to-' if case.get('position', 0) == 0 else '--from-') + case['explicit']]
+        r = cli.run_main(pair + case.get('opts', '--no-status').split() + ['--no-color'] + extra)
     finally:
         cli.cleanup_files(pg, pbad)
-    what = f"{fmt} {case['corruption']} as {'first' if case.get('position', 0) == 0 else 'second'} file; corrupt bytes {bad[:80]!r}"
+    what = f"{fmt} {case['corruption']} as {'first' if case.get('position', 0) == 0 else 'second'} file{' with ' + extra[0] + ' for the valid file' if extra else ''}; corrupt bytes {bad[:80]!r}"
     if r.exc is not None:
         out.fail('exception:' + r.exc_key, f"{what}: {type(r.exc).__name__}: {str(r.exc)[:160]}")
     elif isinstance(r.rc, tuple):
